@@ -27,7 +27,7 @@ HEADLINE = ["fault_cases", "faults_fired", "kind_exit", "kind_raise", "kind_clos
 
 def plan(tier, seed, scale):
     q = tier == "quick"
-    return {"n_cases": 1, "until": 3 if q else 4, "catalogue": [0, 1, 2, 4, 5] if q else [0, 1, 2, 3, 4, 5],
+    return {"n_cases": 1, "until": 3 if q else 4, "catalogue": [0, 1, 2, 4, 5, 6] if q else [0, 1, 2, 3, 4, 5, 6],
             "repeat": 1 if q else 3, "timeout_s": 1500 if q else 10800}
 
 
@@ -67,6 +67,17 @@ def catalogue(k: int, until: int):
                          {"src": "B", "se": "e0", "sa": "o", "dst": "C", "de": "e0", "da": "i"},
                          {"src": "A", "se": "e0", "sa": "o", "dst": "D", "de": "e0", "da": "i"}]}
         remote = ["B", "C", "D"]    # A in-process
+    elif k == 6:
+        # an agent's asynchronous get_data towards a slow remote source is in flight (held by the agent's
+        # reader task in mosaik, not by a scheduler process) while an unrelated in-process simulator fails
+        scn = {"sims": [sim("A", "time-based", {}, {"o": "persistent"}, remote_sleep={"get_data": 0.25}),
+                        sim("B", "time-based", {"i": "nontrigger"}, {},
+                            agent={"targets": [], "p_set": 0.0, "get": [["A.e0", "o"]], "p_get": 1.0}),
+                        sim("C", "time-based", {"i": "nontrigger"}, {})],
+               "conns": [{"src": "A", "se": "e0", "sa": "o", "dst": "B", "de": "e0", "da": "i", "async": True},
+                         {"src": "A", "se": "e0", "sa": "o", "dst": "C", "de": "e0", "da": "i"}]}
+        scn["fault_delay"] = 0.1       # in-process faults fire 0.1 s into the request (see sims.step)
+        remote = ["A", "B"]
     elif k == 5:
         # simulators announcing an older API version (wrapped in version adapters): remote 2.2, in-process 2.0
         scn = {"sims": [dict(sim("A", "time-based", {}, {"o": "persistent"}), api_version="2.2"),
@@ -81,7 +92,7 @@ def catalogue(k: int, until: int):
                "conns": [{"src": "A", "se": "e0", "sa": "o", "dst": "B", "de": "e0", "da": "i"}]}
         remote = []                 # all in-process
     scn["until"] = until
-    scn["config"] = {"cache": True, "lazy": True, "mosaik_config": {"start_timeout": 90, "stop_timeout": 5}}
+    scn["config"] = {"cache": k != 6, "lazy": True, "mosaik_config": {"start_timeout": 90, "stop_timeout": 5}}
     return scn, remote
 
 
@@ -126,6 +137,8 @@ def run_fault_case(scn: dict, remote: List[str], fault: Optional[dict], watchdog
         for s in scn["sims"]:
             if s["sid"] == fault["sid"]:
                 s["fault"] = {"mode": "crash", "at_request": fault["r"], "how": fault["how"], "linger": 0.3}
+                if scn.get("fault_delay"):
+                    s["fault"]["delay"] = scn["fault_delay"]
     cfg = scn["config"]
     cfg["remote_sims"] = remote
     cfg["remote_max_sleep"] = 0.002
@@ -253,6 +266,15 @@ def judge(scn: dict, remote: List[str], fault: dict, out: dict) -> List[dict]:
         if fin.get(sid, 0) != 1:
             v.append(dict(desc, kind="survivor_not_finalized_exactly_once", survivor=sid,
                           finalize_calls=fin.get(sid, 0), survivor_remote=sid in remote))
+    # remote survivors must have *received* 'stop' (recorded on the wire by the harness in the simulator
+    # process), not just seen their connection drop
+    for s in scn["sims"]:
+        sid = s["sid"]
+        if sid == fault["sid"] or sid not in remote:
+            continue
+        n_stop = sum(1 for e in out["remote_events"].get(sid, []) if e.get("op") == "stop_received")
+        if n_stop != 1:
+            v.append(dict(desc, kind="survivor_did_not_receive_stop_exactly_once", survivor=sid, stop_requests=n_stop))
     for sid, st in out["proc_states"].items():
         if st not in (None, "Z"):
             v.append(dict(desc, kind="simulator_process_left_running", sid=sid, state=st))
@@ -378,6 +400,11 @@ def judge_clean(scn, remote, out) -> List[dict]:
     for s in scn["sims"]:
         if fin.get(s["sid"], 0) != 1:
             v.append({"kind": "fault_free_run_finalize_count", "sid": s["sid"], "finalize_calls": fin.get(s["sid"], 0)})
+    for s in scn["sims"]:
+        if s["sid"] in remote:
+            n_stop = sum(1 for e in out["remote_events"].get(s["sid"], []) if e.get("op") == "stop_received")
+            if n_stop != 1:
+                v.append({"kind": "fault_free_run_stop_not_received_exactly_once", "sid": s["sid"], "stop_requests": n_stop})
     for sid, st in out["proc_states"].items():
         if st not in (None, "Z"):
             v.append({"kind": "fault_free_run_process_left_running", "sid": sid})
@@ -410,13 +437,14 @@ def decide(m, tier):
 
 def evidence(m, tier, seed):
     return {"level": "fault_enumeration", "coverage": {
-        "rule": "catalogue of 5 (thorough: 6) scenarios (one with simulators announcing API 2.x, i.e. wrapped in version adapters) with 2-4 simulators, remote (real processes over TCP) and "
+        "rule": "catalogue of 6 (thorough: 7) scenarios (one with simulators announcing API 2.x, i.e. wrapped in version adapters) with 2-4 simulators, remote (real processes over TCP) and "
                 "in-process mixes; a fault-free run counts the requests R_S each simulator receives (setup_done, "
                 "steps, get_data); then EVERY (simulator, request index < R_S, kind) with kind in {process exit, "
                 "exception in handler, connection abort} for remote and exceptions {RuntimeError, TypeError, ValueError, "
                 "KeyError, ConnectionError} for in-process simulators is "
                 "run once (thorough: 3 times): run() must end (watchdog 40 s; a hang counts only if it reproduces "
-                "twice), survivors finalized exactly once, no simulator process left after a grace period, loop "
+                "twice), survivors finalized exactly once and - if remote - having received 'stop' on the wire exactly "
+                "once, no simulator process left after a grace period, loop "
                 "closed, no task pending at loop.close(), no unclosed socket/transport ResourceWarning, no never-awaited "
                 "coroutine, no error reported to the loop's exception handler, no request "
                 "after finalize; distinct_nontrivial = distinct (scenario, simulator, request index, kind) whose "
